@@ -21,7 +21,9 @@ EXPLANATION = (
     "(and context) inside the call, the compiler builds its pass lists per instance; no mutable object bound at module or class "
     "level is mutated after import; a mutable default argument is never mutated, and when it is stored in a field, that field "
     "is not mutated in place in any class that can have received the default. R18.3 the listing is a function of the module's "
-    "fields (= R17.3)."
+    "fields (= R17.3). R18.1 also: a set handed to a repository callee that puts its parameter in order; R18.2 also: a shared "
+    "default that escapes through an accessor and is mutated by the caller, a default argument that reads process state at "
+    "import time (cwd, clock, environment), interpreter-wide settings changed by the front ends."
 )
 NOT_DECIDED = "actual byte equality across real processes; the on-disk parser-table cache (PLY's behaviour, not NSL source)"
 ASSUMPTIONS = ["dict and list iteration order is insertion order (CPython >= 3.7)"]
